@@ -103,3 +103,11 @@ Definition run_der_float (ode : list expr) (es : list expr) (envs : list (list Q
                          (map (@of_Q _ FloatOps) p) [] [] [] [] [] (@of_Q _ FloatOps t)
                          (@o0 _ FloatOps) (@o0 _ FloatOps) (@o0 _ FloatOps) (@o0 _ FloatOps) in
          map (fun ex => (@eval0 _ FloatOps e (tder ode ex), @eval0 _ FloatOps e (grad_form ode ex))) es) envs.
+
+(* B-spline kernels *)
+From RV Require Import Mech.Spline.
+Definition cvf (l : list Q) := map (@of_Q _ FloatOps) l.
+Definition run_spline_float (xi : list Q) (d : nat) (taus : list Q) (edges : bool) (c : list Q) :=
+  (@eval_on_knots _ FloatOps (cvf xi) d (cvf taus) edges,
+   @bspline_derivative _ FloatOps (cvf c) (cvf xi) d,
+   @greville _ FloatOps (cvf xi) d).
